@@ -88,43 +88,6 @@ theorem lx_nil : (lx [] false).1 = eof := by
 
 /-! ### single bytes -/
 
-/-- bytes that are always a token of their own: `( ) [ ] { } , : ;` -/
-def isSolo (c : UInt8) : Bool :=
-  c == 40 || c == 41 || c == 91 || c == 93 || c == 123 || c == 125 || c == 44 || c == 58 || c == 59
-
-/-- bytes that are a token of their own unless `=` follows: `| + - * %` -/
-def isEqExt (c : UInt8) : Bool := c == 124 || c == 43 || c == 45 || c == 42 || c == 37
-
-/-- the scanner that reads `t` stops at the end of `t`'s spelling when `fol` follows -/
-def stops : Tok → Bytes → Bool
-  | .ch c, fol =>
-    if isSolo c then true
-    else if c == 46 then !(peek fol == 46 || isIdent (peek fol) false || isNumber (peek fol))
-    else if isEqExt c then !(peek fol == 61)
-    else if c == 47 then !(peek fol == 61 || peek fol == 47)
-    else if c == 63 then !(peek fol == 47 && peek (fol.drop 1) == 47)
-    else false
-  | .ident _, fol | .kw _, fol | .var _, fol =>
-    !isIdent (peek fol) true &&
-      (match fol with | 58 :: 58 :: c :: _ => !isIdent c false | _ => true)
-  | .modIdent _, fol | .modVar _, fol | .index _, fol | .format _, fol => !isIdent (peek fol) true
-  | .number _, fol => !(isNumber (peek fol) || peek fol == 46 || isIdent (peek fol) false)
-  | .recurse, _ => true
-  | .op o, fol =>
-    (match o with
-     | .alt | .assign | .lt | .gt => !(peek fol == 61)
-     | _ => true)
-  | .destAlt, _ => true
-  | .str _, _ => true
-  | .strStart, fol => (match scanString fol 0 with | .interp _ => true | _ => false)
-  | .chunk _, fol => (match fol with | 34 :: _ => true | 92 :: 40 :: _ => true | _ => false)
-  | .strQuery, _ => true
-  | .strEnd, _ => true
-  | .bad _, _ => false
-
-/-- the single-byte tokens the printer writes -/
-def okCh (c : UInt8) : Bool := isSolo c || c == 46 || isEqExt c || c == 47 || c == 63
-
 theorem step_single (c : UInt8) (fol : Bytes) (hw : isWhite c = false) (hh : (c == 35) = false)
     (hsc : scanTok false c fol = { n := 0, token := none, ty := c.toNat })
     (hcl : classify false c.toNat {} = .ch c) : LexStep false (c :: fol) (.ch c) fol false :=
